@@ -72,7 +72,7 @@ pub fn unit_count(prop: &str, tier: Tier) -> u64 {
         "C04" => (200_000, 20_000_000),
         "C05" => (40_000, 4_000_000),
         "C06" => (60_000, 4_000_000),
-        "C07" => (8_000, 600_000),
+        "C07" => (12_000, 800_000),
         "C08" => (8_000, 500_000),
         "C09" => (40_000, 4_000_000),
         "C10" => (100_000, 6_000_000),
